@@ -85,7 +85,7 @@ AreaFails(c) ==
 \* blend: |1000 final - ((1000-B) LB + B UB)| <= 1000 * tol, per coordinate (small coordinates only: 32-bit ints)
 BlendOK(fin, lb, ub, B, tol) ==
     \A i \in Movable(fin) :
-       LET small(v) == Abs(v) <= 400000 IN
+       LET small(v) == v >= -400000 /\ v <= 400000 IN   \* no Abs: an exposed INT_MIN must not overflow the check itself
        (small(fin.cells[i].x) /\ small(lb.cells[i].x) /\ small(ub.cells[i].x) /\
         small(fin.cells[i].y) /\ small(lb.cells[i].y) /\ small(ub.cells[i].y)) =>
        /\ Abs(1000 * fin.cells[i].x - ((1000 - B) * lb.cells[i].x + B * ub.cells[i].x)) <= 1000 * tol
